@@ -1,13 +1,353 @@
 /-
 C14 — Transient room data: listeners converge to the room's data; TTLs are honoured.
+
+Property theorems about the model of `transient_data.go` (`Model/Transient.lean`),
+which is defined over the facts regenerated from the current source
+(`Generated/Transient.lean`), stated against the ideal store and the listener
+replicas of `Spec/Transient.lean`.
+
+Whole API calls and the timer callback run under the store mutex
+(`C14_atomic_ops`), so a run of several goroutines is a sequence of `Op`s; the
+theorems quantify over *all* such sequences, the timing of expiry relative to
+the calls being the position of `advance` (quiescent) or of `fire` / `runCb`
+(a callback that has fired but is still waiting for the mutex) in the list.
 -/
 import SigModel.Lemmas.Transient
 
 namespace SigModel.Transient
 open SigModel.Generated.Transient
 
-/-- The current source is the repaired code: the three places of DESIGN §6 #11 and the
-compare-and-set notification, as read by the extractor. -/
+/-! ## 0. What the source is -/
+
+/-- The current source is the repaired code: the three places of DESIGN §6 #11
+(`updateTTL` stops the timer, `removeAfterTTL` stops the previous timer before its
+early return, the expiry callback checks that it is still the current timer) and
+the silent compare-and-set to the stored value — as read by the extractor.
+Reverting any of them in `/repo` makes this (and everything below) fail. -/
 theorem C14_source_is_repaired : Cfg.current = Cfg.repaired := by decide
+
+theorem step_eq (st : State) (op : Op) : step st op = stepC Cfg.repaired st op := by
+  unfold step; rw [C14_source_is_repaired]
+
+theorem run_eq (st : State) (ops : List Op) : run st ops = runC Cfg.repaired st ops := by
+  unfold run; rw [C14_source_is_repaired]
+
+/-- Every exported method of `TransientData` is one critical section of `t.mu` (or a plain
+delegation to one), the expiry callback takes the same mutex, a `nil` value means remove. -/
+theorem C14_atomic_ops :
+    atomicMethods = exportedMethods ∧
+    exportedMethods = ["AddListener", "CompareAndRemove", "CompareAndSet", "CompareAndSetTTL", "GetData",
+      "Remove", "RemoveListener", "Set", "SetTTL"] ∧
+    expiryCallbackLocked = true ∧ setNilRemoves = true ∧ casNilRemoves = true := by decide
+
+/-- `room.go` / `hub.go` reach the store only through these delegations: the room's setters are
+one-line calls, sessions are registered as listeners on join and unregistered on leave. -/
+theorem C14_wiring :
+    wiring = ["Room.SetTransientData->Set", "Room.SetTransientDataTTL->SetTTL", "Room.RemoveTransientData->Remove",
+      "Room.AddSession->AddListener", "Room.RemoveSession->RemoveListener",
+      "Hub.processTransientMsg->Room.SetTransientDataTTL", "Hub.processTransientMsg->Room.RemoveTransientData"] := by
+  decide
+
+/-! ## 1. Replicas converge
+
+A listener starts from nothing when it joins, takes the `initial` snapshot if one is
+sent, and applies every later `set` / `remove` in order.  After *every* sequence of
+operations — sets with and without ttl, compare-and-sets, removes, joins, leaves,
+expiries at any position, callbacks delayed behind other calls — every registered
+listener's replica is the store. -/
+
+theorem C14_replica_converges (ops : List Op) :
+    let r := runV Cfg.current init (fun _ => []) ops
+    ∀ l ∈ r.1.listeners, r.2 l = r.1.data := by
+  intro r l hl
+  exact Conv_runV Cfg.current ops init (fun _ => []) (by intro l hl; cases hl) l hl
+
+/-- … in particular as maps. -/
+theorem C14_replica_converges_map (ops : List Op) :
+    let r := runV Cfg.current init (fun _ => []) ops
+    ∀ l ∈ r.1.listeners, sameMap (r.2 l) r.1.data := by
+  intro r l hl k
+  rw [C14_replica_converges ops l hl]
+
+/-- The step form, from any state in which the replicas are right (so: also for listeners that
+joined long ago, and independent of how the state was reached). -/
+theorem C14_replica_step (st : State) (view : Lid → Replica) (op : Op)
+    (h : ∀ l ∈ st.listeners, view l = st.data) :
+    ∀ l ∈ (step st op).st.listeners, viewStep view op (step st op).out l = (step st op).st.data :=
+  Conv_step Cfg.current st view op h
+
+/-- Non-vacuity: two listeners, one joining late (gets a snapshot), a value that expires, a value
+whose ttl is cleared; both replicas equal the store, which is not empty. -/
+example :
+    let ops : List Op := [.addListener 1, .set "a" (some "x") 20, .set "b" (some "y") 30,
+      .addListener 2, .set "b" (some "y") 0, .advance 50, .set "c" (some "z") 5]
+    let r := runV Cfg.current init (fun _ => []) ops
+    r.1.listeners = [2, 1] ∧ r.1.data = [("c", "z"), ("b", "y")] ∧ r.2 1 = r.1.data ∧ r.2 2 = r.1.data := by
+  decide
+
+/-! ## 2. Setting an unchanged value sends nothing (and anything sent means a change) -/
+
+theorem C14_unchanged_silent (st : State) (k : Key) (v : Val) (ttl : Int)
+    (h : kvGet st.data k = some v) :
+    (step st (.set k (some v) ttl)).out = [] ∧ (step st (.set k (some v) ttl)).st.data = st.data ∧
+    ∀ old, (step st (.cas k old (some v) ttl)).out = [] ∧
+           (step st (.cas k old (some v) ttl)).st.data = st.data := by
+  have hs : Cfg.repaired.setUnchangedSilent = true := rfl
+  have hc : Cfg.repaired.casUnchangedSilent = true := rfl
+  refine ⟨?_, ?_, fun old => ?_⟩
+  · simp [step_eq, stepC, setTTL, h, hs]
+  · simp [step_eq, stepC, setTTL, h, hs]
+  · by_cases ho : old = some v
+    · simp [step_eq, stepC, casTTL, h, hc, ho]
+    · simp [step_eq, stepC, casTTL, h, ho]
+
+/-- Conversely a changed value reaches every registered listener, once, with old and new value. -/
+theorem C14_changed_notifies_all (st : State) (k : Key) (v : Val) (ttl : Int)
+    (h : kvGet st.data k ≠ some v) :
+    (step st (.set k (some v) ttl)).out = st.listeners.map (fun l => (l, Msg.set k v (kvGet st.data k))) ∧
+    kvGet (step st (.set k (some v) ttl)).st.data k = some v := by
+  have hs : Cfg.repaired.setUnchangedSilent = true := rfl
+  constructor
+  · simp [step_eq, stepC, setTTL, h, hs, doSet, notify]
+  · simp [step_eq, stepC, setTTL, h, hs, doSet, kvGet_kvSet]
+
+/-- Whatever a request (set, compare-and-set, remove, compare-and-remove) sends, it sends
+because the data changed: no notification without a change of the map. -/
+theorem C14_notification_means_change (st : State) (op : Op)
+    (hop : match op with | .set .. => True | .cas .. => True | .remove _ => True | .casRemove .. => True | _ => False)
+    (hout : (step st op).out ≠ []) : ¬ sameMap (step st op).st.data st.data := by
+  have hs : Cfg.repaired.setUnchangedSilent = true := rfl
+  have hc : Cfg.repaired.casUnchangedSilent = true := rfl
+  -- the two ways of producing output
+  have hSet : ∀ k v prev ttl, kvGet st.data k ≠ some v →
+      ¬ sameMap (doSet Cfg.repaired st k v prev ttl).1.data st.data := by
+    intro k v prev ttl hne hsame
+    have := hsame k
+    simp [doSet, kvGet_kvSet] at this
+    exact hne this.symm
+  have hRem : ∀ k prev, kvGet st.data k = some prev → ¬ sameMap (doRemove st k prev).1.data st.data := by
+    intro k prev hk hsame
+    have := hsame k
+    simp [doRemove, kvGet_kvErase, hk] at this
+  have hRemove : ∀ k, (remove st k).out ≠ [] → ¬ sameMap (remove st k).st.data st.data := by
+    intro k ho
+    unfold remove at ho ⊢
+    cases hk : kvGet st.data k with
+    | none => simp [hk] at ho
+    | some prev => simpa [hk] using hRem k prev hk
+  have hCar : ∀ k old, (compareAndRemove st k old).out ≠ [] →
+      ¬ sameMap (compareAndRemove st k old).st.data st.data := by
+    intro k old ho
+    unfold compareAndRemove at ho ⊢
+    cases hk : kvGet st.data k with
+    | none => simp [hk] at ho
+    | some prev =>
+      by_cases hop : old = some prev
+      · simpa [hk, hop] using hRem k prev hk
+      · simp [hk, hop] at ho
+  rw [step_eq] at hout ⊢
+  cases op with
+  | set k v ttl =>
+    cases v with
+    | none => exact hRemove k hout
+    | some v =>
+      simp only [stepC, setTTL, hs, Bool.true_and] at hout ⊢
+      by_cases hp : kvGet st.data k = some v
+      · simp [hp] at hout
+      · simp only [hp, decide_false, Bool.false_eq_true, ite_false] at hout ⊢
+        exact hSet k v _ ttl hp
+  | cas k old v ttl =>
+    cases v with
+    | none => exact hCar k old hout
+    | some v =>
+      simp only [stepC, casTTL, hc, Bool.true_and] at hout ⊢
+      by_cases ho : old = kvGet st.data k
+      · by_cases hp : kvGet st.data k = some v
+        · simp [ho, hp] at hout
+        · simp only [ho, ne_eq, not_true_eq_false, ite_false, hp, decide_false, Bool.false_eq_true] at hout ⊢
+          exact hSet k v _ ttl hp
+      · simp [ho] at hout
+  | remove k => exact hRemove k hout
+  | casRemove k old => exact hCar k old hout
+  | addListener l => cases hop
+  | removeListener l => cases hop
+  | get => cases hop
+  | advance dt => cases hop
+  | fire dt => cases hop
+  | runCb id => cases hop
+
+/-- Non-vacuity: a state with data and listeners; same value silent, other value not. -/
+example :
+    let st := run init [.addListener 1, .addListener 2, .set "a" (some "x") 20]
+    (step st (.set "a" (some "x") 0)).out = [] ∧ (step st (.cas "a" (some "x") (some "x") 7)).out = [] ∧
+    (step st (.set "a" (some "y") 0)).out = [(2, .set "a" "y" (some "x")), (1, .set "a" "y" (some "x"))] := by
+  decide
+
+/-! ## 3. TTLs are honoured and the latest request governs
+
+`Spec.run` is the ideal store of the statement: per key the value and deadline fixed
+by the latest request that took effect; `advance` removes exactly what is past its
+deadline.  It has no timers.  For every sequence of API calls and quiescent passages
+of time the model's data is the ideal store's data — at the end of the sequence,
+hence (every prefix being such a sequence) at every moment. -/
+
+theorem C14_ttl_governed_by_latest (ops : List Op) (hq : ∀ op ∈ ops, op.quiescent = true) :
+    ∀ k, kvGet (run init ops).data k = (Spec.run {} ops).value k := by
+  have gen : ∀ (ops : List Op) (st : State) (sp : Spec), RelS st sp → NoFired st →
+      (∀ op ∈ ops, op.quiescent = true) →
+      RelS (runC Cfg.repaired st ops) (Spec.run sp ops) := by
+    intro ops
+    induction ops with
+    | nil => intro st sp h _ _; exact h
+    | cons op ops ih =>
+      intro st sp h hn hq
+      obtain ⟨h1, h2⟩ := RelS_step_quiescent h hn op (hq op (List.mem_cons_self ..))
+      exact ih _ _ h1 h2 (fun o ho => hq o (List.mem_cons_of_mem _ ho))
+  intro k
+  rw [run_eq]
+  exact ((gen ops init {} RelS_init noFired_init hq).value_eq k).symm
+
+/-- … and after a quiescent passage of time nothing in the store is past its deadline
+("disappears once that time has passed"). -/
+theorem C14_nothing_overdue (ops : List Op) (hq : ∀ op ∈ ops, op.quiescent = true) (k : Key) :
+    (Spec.run {} ops).overdue (Spec.run {} ops).now k = false := by
+  have gen : ∀ (ops : List Op) (st : State) (sp : Spec), RelS st sp → NoFired st →
+      (∀ op ∈ ops, op.quiescent = true) →
+      RelS (runC Cfg.repaired st ops) (Spec.run sp ops) ∧ NoFired (runC Cfg.repaired st ops) := by
+    intro ops
+    induction ops with
+    | nil => intro st sp h hn _; exact ⟨h, hn⟩
+    | cons op ops ih =>
+      intro st sp h hn hq
+      obtain ⟨h1, h2⟩ := RelS_step_quiescent h hn op (hq op (List.mem_cons_self ..))
+      exact ih _ _ h1 h2 (fun o ho => hq o (List.mem_cons_of_mem _ ho))
+  obtain ⟨h1, h2⟩ := gen ops init {} RelS_init noFired_init hq
+  exact no_overdue_of_noFired h1 h2 k
+
+/-- The ideal store spelled out on one key: the latest request fixes value and deadline … -/
+theorem C14_spec_latest_governs (sp : Spec) (k : Key) (v : Val) (ttl : Int) :
+    kvGet (sp.step (.set k (some v) ttl)).ents k =
+      some ⟨v, if 0 < ttl then some (sp.now + ttl.toNat) else none⟩ := by
+  simp [Spec.step, Spec.put, kvGet_kvSet, deadlineOf]
+
+/-- … and time removes a key iff its deadline is reached. -/
+theorem C14_spec_settle (sp : Spec) (dt : Nat) (k : Key) :
+    (sp.settle dt).value k = if sp.overdue (sp.now + dt) k then none else sp.value k := by
+  simp only [Spec.value, kvGet_settle]
+  split <;> simp
+
+theorem C14_spec_overdue_iff (sp : Spec) (now : Nat) (k : Key) :
+    sp.overdue now k = true ↔ ∃ v d, kvGet sp.ents k = some ⟨v, some d⟩ ∧ d ≤ now := by
+  unfold Spec.overdue
+  cases h : kvGet sp.ents k with
+  | none => simp
+  | some e =>
+    obtain ⟨v, d⟩ := e
+    cases d with
+    | none => simp [Entry.overdue]
+    | some d =>
+      simp only [Entry.overdue, decide_eq_true_eq, Option.some.injEq, Entry.mk.injEq]
+      constructor
+      · intro hd; exact ⟨v, d, ⟨rfl, rfl⟩, hd⟩
+      · rintro ⟨_, _, ⟨_, rfl⟩, hd⟩; exact hd
+
+/-- Non-vacuity, and the two histories of DESIGN §6 #11 on the model of the current source:
+clearing the ttl keeps the value; `v(ttl) → w → v` keeps `v`; an extended ttl expires at the
+new deadline only. -/
+example :
+    (run init [.set "a" (some "v") 20, .set "a" (some "v") 0, .advance 30]).data = [("a", "v")] ∧
+    (run init [.set "a" (some "v") 20, .set "a" (some "w") 0, .set "a" (some "v") 0, .advance 30]).data
+      = [("a", "v")] ∧
+    (run init [.set "a" (some "v") 20, .advance 10, .set "a" (some "v") 20, .advance 15]).data = [("a", "v")] ∧
+    (run init [.set "a" (some "v") 20, .advance 10, .set "a" (some "v") 20, .advance 15, .advance 5]).data = [] := by
+  decide
+
+/-! ### The pinned original violated it (proved counter-examples, replayed in `corpus/C14`) -/
+
+/-- Original code: clearing the ttl of an unchanged value does not stop the expiry. -/
+theorem C14_original_clear_still_expires :
+    let ops : List Op := [.set "a" (some "v") 20, .set "a" (some "v") 0, .advance 30]
+    (runC Cfg.original init ops).data = [] ∧ (Spec.run {} ops).value "a" = some "v" := by decide
+
+/-- Original code: `v(ttl) → w → v` is deleted at the old deadline (compare-by-value ABA). -/
+theorem C14_original_aba_expires :
+    let ops : List Op := [.set "a" (some "v") 20, .set "a" (some "w") 0, .set "a" (some "v") 0, .advance 30]
+    (runC Cfg.original init ops).data = [] ∧ (Spec.run {} ops).value "a" = some "v" := by decide
+
+/-- Stopping timers alone is not enough: a callback that has already fired when the ttl is
+extended (it waits for the mutex behind the `SetTTL`) would still delete the value if it did
+not check that it is the current timer. -/
+theorem C14_late_callback_needs_identity_check :
+    let ops : List Op := [.set "a" (some "v") 20, .fire 20, .set "a" (some "v") 100, .runCb 0]
+    (runC { Cfg.repaired with expiryChecksCurrent := false } init ops).data = [] ∧
+    (runC Cfg.repaired init ops).data = [("a", "v")] := by decide
+
+/-- Original code: compare-and-set to the stored value notified the listeners. -/
+theorem C14_original_cas_unchanged_notifies :
+    (stepC Cfg.original (runC Cfg.original init [.addListener 1, .set "a" (some "v") 0])
+      (.cas "a" (some "v") (some "v") 0)).out = [(1, .set "a" "v" (some "v"))] := by decide
+
+/-! ## 4. Every timing of the expiry callback
+
+`fire` lets time pass and timers fire without their callbacks having run; `runCb id`
+runs one waiting callback — at any later position, in any order, also after the timer
+has been stopped or replaced.  `specStepA` gives each model step its meaning for the
+ideal store: an API call is the request, `fire` is time passing, a callback that is
+still the governing timer of its key is the expiry of that key (`Spec.expire`, which
+itself acts only when the deadline is reached), any other callback is nothing. -/
+
+def runA : State → Spec → List Op → State × Spec
+  | st, sp, [] => (st, sp)
+  | st, sp, op :: ops => runA (step st op).st (specStepA st sp op) ops
+
+theorem C14_ttl_async (ops : List Op) :
+    let r := runA init {} ops
+    (∀ k, kvGet r.1.data k = r.2.value k) ∧
+    ((∀ t ∈ r.1.timers, t.fired = false) → ∀ k, r.2.overdue r.2.now k = false) := by
+  have gen : ∀ (ops : List Op) (st : State) (sp : Spec), RelS st sp →
+      RelS (runA st sp ops).1 (runA st sp ops).2 := by
+    intro ops
+    induction ops with
+    | nil => intro st sp h; exact h
+    | cons op ops ih =>
+      intro st sp h
+      simp only [runA]
+      apply ih
+      rw [step_eq]
+      exact RelS_stepA h op
+  have h := gen ops init {} RelS_init
+  exact ⟨fun k => (h.value_eq k).symm, fun hn k => no_overdue_of_noFired h hn k⟩
+
+/-- The only way a value disappears without a request is the expiry of its key at or after the
+deadline that the latest request gave it. -/
+theorem C14_expiry_not_before_deadline (sp : Spec) (k k' : Key) :
+    (sp.expire k).value k' =
+      if k' = k ∧ sp.overdue sp.now k = true then none else sp.value k' := by
+  unfold Spec.expire Spec.overdue Spec.value
+  cases h : kvGet sp.ents k with
+  | none => simp
+  | some e =>
+    by_cases ho : e.overdue sp.now = true
+    · simp only [ho, ite_true, Spec.del, kvGet_kvErase, and_true]
+      by_cases hk : k' = k <;> simp [hk]
+    · simp [ho]
+
+theorem C14_callback_is_expiry_or_nothing (st : State) (sp : Spec) (id : Nat) :
+    specStepA st sp (.runCb id) = sp ∨ ∃ k, specStepA st sp (.runCb id) = sp.expire k := by
+  simp only [specStepA, specCb]
+  split
+  · exact Or.inl rfl
+  · split
+    · exact Or.inr ⟨_, rfl⟩
+    · exact Or.inl rfl
+
+/-- Non-vacuity: a delayed callback of a superseded timer does nothing, a delayed callback of the
+governing timer expires the key, and in both cases model and ideal store agree. -/
+example :
+    let a := runA init {} [.set "a" (some "v") 20, .fire 25, .set "a" (some "v") 100, .runCb 0]
+    let b := runA init {} [.set "a" (some "v") 20, .fire 25, .set "b" (some "w") 0, .runCb 0]
+    a.1.data = [("a", "v")] ∧ a.2.value "a" = some "v" ∧
+    b.1.data = [("b", "w")] ∧ b.2.value "a" = none ∧ b.2.value "b" = some "w" := by
+  decide
 
 end SigModel.Transient
